@@ -210,7 +210,7 @@ def expiry_tests(body):
         if si["kind"] != "bool":
             continue
         cond = si["cond"]
-        if cond[0] == "call" and cond[1].local and len(cond[2]) == 2 and q.last_field(cond[2][0]) == "id":
+        if cond[0] == "call" and cond[1].local and len(cond[2]) >= 2 and q.last_field(cond[2][0]) == "id":
             out.append((bb, cond, q.edge_triples(body, bb, lambda m: m is True), q.edge_triples(body, bb, lambda m: m is False)))
     return out
 
@@ -252,3 +252,61 @@ def ttl_time_payload_base(e):
             continue
         break
     return None
+
+
+CLOCK = "std::time::SystemTime::now"
+
+
+def clock_fns(run, depth=3):
+    """Crate-local functions that read the wall clock (directly or through local callees)."""
+    out = set()
+    for _ in range(depth):
+        for b in run.facts.all_bodies():
+            if b.def_ in out or b.kind not in ("Fn", "AssocFn"):
+                continue
+            for c in b.calls():
+                if c.bb in b.live_blocks() and (c.fn == CLOCK or c.fn in out):
+                    out.add(b.def_)
+    return out
+
+
+def reads_clock(run, e, cfns=None):
+    cfns = cfns if cfns is not None else clock_fns(run)
+    return [y[1] for y in walk(e) if y[0] == "call" and (y[1].fn == CLOCK or y[1].fn in cfns)]
+
+
+def rule_clock_freshness(run):
+    """Every expiry decision uses a clock reading taken for THAT decision: inside the predicate, or in the same per-item
+    body after the item was obtained (a reading hoisted out of the scan makes frames that expire during the scan live forever)."""
+    cfns = clock_fns(run)
+    n = 0
+    for (b, c, variant, agg) in gc_requests(run):
+        if variant != "Remove":
+            continue
+        for (bb, cond, t_edges, f_edges) in expiry_tests(b):
+            if not (t_edges and q.dominated(b, c.bb, via_edges=t_edges)):
+                continue
+            n += 1
+            pred = cond[1].fn
+            fn = b.def_
+            if pred in cfns:
+                run.ob("%s|expiry-clock" % fn, True, cond[1].sp, "the expiry predicate %s reads the clock itself at every decision" % pred.split("::")[-1])
+                continue
+            # the clock value is an argument: find where it was read
+            srcs = []
+            for a in cond[2]:
+                srcs += reads_clock(run, a, cfns)
+            stale_capture = any(y[0] == "field" and y[1][0] == "env" and ("now" in str(y[2]) or "clock" in str(y[2])) for a in cond[2] for y in walk(a))
+            if not srcs:
+                run.ob("%s|expiry-clock" % fn, False, cond[1].sp,
+                       "the expiry decision uses no clock reading taken in this per-frame body (%s): a reading captured / passed from outside the scan goes stale while the scan runs" % (
+                           "captured value" if stale_capture else "no SystemTime::now in the predicate or its arguments"), reason="stale-clock-in-expiry")
+                continue
+            # per-item freshness: in a loop body the reading must follow the iterator step; in a per-item closure any position is fresh
+            nxt = [x for x in b.calls() if x.bb in b.live_blocks() and x.fn.endswith("Iterator::next")]
+            fresh = True
+            for sc in srcs:
+                if nxt and not any(q.dominated(b, sc.bb, via_blocks=[x.bb]) and q.reaches(b, x.bb, sc.bb) for x in nxt):
+                    fresh = False
+            run.ob("%s|expiry-clock" % fn, fresh, cond[1].sp, "the clock is read after the frame was obtained from the iterator (per decision)", reason="stale-clock-in-expiry")
+    run.floor("expiry decisions guarding GCTask::Remove", n, 2)
